@@ -3,7 +3,7 @@ from common import COMMON_TB
 PROP = {
     "bin": "c08",
     "prop_file": "Properties/C08.v",
-    "model_files": ["Columnar/BitPack.v", "Columnar/MonoMap.v", "Columnar/Stats.v", "Columnar/Line.v", "Columnar/Blockwise.v", "Columnar/BlockwiseProofs.v", "Columnar/OptionalIndex.v", "Columnar/OptionalIndexProofs.v", "Columnar/MultiValued.v", "Columnar/MergeIndex.v", "Columnar/IndexTie.v", "Columnar/LegacyV1.v", "Columnar/Spec.v", "Columnar/Cases.v"],
+    "model_files": ["Columnar/BitPack.v", "Columnar/MonoMap.v", "Columnar/Stats.v", "Columnar/Line.v", "Columnar/Blockwise.v", "Columnar/BlockwiseProofs.v", "Columnar/OptionalIndex.v", "Columnar/OptionalIndexProofs.v", "Columnar/MultiValued.v", "Columnar/MergeIndex.v", "Columnar/IndexTie.v", "Columnar/LegacyV1.v", "Columnar/DictMerge.v", "Columnar/Spec.v", "Columnar/Cases.v"],
     "level": "proof",
     "engine": "E5-codecs",
     "level_text": "Proof (value lists of ANY length, every width allowed by the pinned 56/64 rule, all of u64 incl. 0 and 2^64-1): BitPacker::write/flush lays values out as the "
@@ -22,8 +22,12 @@ PROP = {
                   "contribute exactly what the same column contributes in the current format, hence the stacked merge with inputs of either format at any position is proved correct for ALL inputs under the "
                   "pinned flags (row offset added: STACK_V1_DOCS_SHIFTED; value-less documents of v1 inputs skipped: STACK_NUM_VALUES_SKIPS_EMPTY, the fix of F82); proofs re-run on the "
                   "regenerated flags; the pre-fix shapes are kept as refuted witnesses over explicit `false` parameters (F82: duplicate start offsets; unshifted doc ids; `end >= pos`). "
+                  "Dictionary merge of Str / Bytes columns (TermMerger k-way merge as a trace of (key, kept) steps + TermOrdinalMapping as the walk of each segment's term list along it): for a "
+                  "stacked merge of ANY per-segment dictionaries every term ordinal is proved to be remapped to an ordinal designating the same term in the merged dictionary (every document reads the "
+                  "same term as before), and along any trace (shuffled merges dropping unused terms included) every registered ordinal is proved to read the same term; tied on merged dictionaries and "
+                  "merged ordinals of small stack merges, generators produce near-miss per-segment vocabularies (same number of terms, size, extremes; different middle terms). "
                   "Tied only (cases / list specification evaluated on the implementation's answers, no theorem): byte framing of blocks, metadata, headers and footers (VInt), the merge iterators "
-                  "(the merge theorems are about the model; merge_columnar itself is compared with the list specification at the result level only), dictionary-ordinal remapping (result level), "
+                  "(the merge theorems are about the model; merge_columnar itself is compared with the list specification at the result level only), which terms a shuffled merge keeps (result level), "
                   "compact space for u128 / IP columns (result level only), get_batch_u32s / BitPacker1x batch decoding.",
     "level_note": "Trusted: Coq kernel + vm_compute; pin.py; harness. fastdivide::DividerU64 is a Section variable with contract fdiv d x = x / d. The estimator's codec choice is not modelled "
                   "(every codec is forced in turn and must be exact; only decoded behaviour is compared). VInt framing of column headers/footers is parsed by the harness, not modelled. "
